@@ -183,7 +183,7 @@ def run_lines(exe, lines, extra_args=(), timeout=3000, shards=None, ulimit_stack
             # the crasher, the rest is run again
             ol = _isolate_crashes(exe, ch, extra_args, timeout, ulimit_stack, env, rc, err)
         for j in range(len(ch)):
-            merged[i + j * n] = ol[j] if j < len(ol) else ("CRASHED rc=%s %s" % (rc, err[-200:].replace("\n", " ")))
+            merged[i + j * n] = ol[j] if j < len(ol) else ("CRASHED rc=%s %s ... %s" % (rc, err[:300].replace("\n", " "), err[-200:].replace("\n", " ")))
     return merged
 
 _isolating = False
@@ -202,7 +202,7 @@ def _isolate_crashes(exe, ch, extra_args, timeout, ulimit_stack, env, rc, err):
             out += part[:good]
             pos += good
             if pos < len(ch):
-                out.append(part[good] if good < len(part) else "CRASHED rc=%s %s" % (rc, err[-200:].replace("\n", " ")))
+                out.append(part[good] if good < len(part) else "CRASHED rc=%s %s ... %s" % (rc, err[:300].replace("\n", " "), err[-200:].replace("\n", " ")))
                 pos += 1
                 crashes += 1
         return out
